@@ -281,6 +281,30 @@ pub fn run(a_: &Args, out: &mut impl Write) {
         let tn = (e.type_name)();
         writeln!(out, "sigty {} {} | raw={} canon={}", e.idx, e.descr, tn.replace(' ', "~"), canon(tn).replace(' ', "~")).unwrap();
     }
+    // ---- the gate asked from a destructor that runs while the thread unwinds (a fixture's tear-down
+    // installing a stub): same verdicts as anywhere else
+    for a in fam.iter().step_by(3) {
+        for b in fam.iter().step_by(5).chain(std::iter::once(a)) {
+            let (mt, mf) = (a.mk_target, b.mk_fake);
+            let ta = (a.target_addr)();
+            let before = unsafe { arena::read(ta, 16) };
+            let r = in_unwinding(move || {
+                let mut inj = InjectorPP::new();
+                inj.when_called(mt()).will_execute_raw(mf());
+            });
+            let after = unsafe { arena::read(ta, 16) };
+            let lv = a.lifetime_variant_of == Some(b.idx) || b.lifetime_variant_of == Some(a.idx);
+            writeln!(out, "sigpair unwinding {} {} | {} restored={} guards=0 lv={}", a.descr, b.descr, classify(&r), (before == after) as u8, lv as u8).unwrap();
+        }
+    }
+    for e in bool_family().iter().step_by(2) {
+        let mk = e.mk_target;
+        let r = in_unwinding(move || {
+            let mut inj = InjectorPP::new();
+            inj.when_called(mk()).will_return_boolean(true);
+        });
+        writeln!(out, "boolgate {} | {} restored=1", e.descr, classify(&r)).unwrap();
+    }
     // ---- every ordered pair through func!/func!
     for a in &fam {
         for b in &fam {
